@@ -408,9 +408,12 @@ def _op_ivp(ctx, op, state):
     twin = _explicit_twin(tspec, max(a, b))
     if twin is not None:
         r = np.asarray(twin.transform(np.linspace(min(a, b), max(a, b), 9)), dtype=float)
-        if not (np.all(np.isfinite(r)) and np.all(np.diff(r) > 0)):
-            ctx.log.add(ctx.step, "ivp", "skip-not-increasing")
+        # (an initial-value problem can be integrated through a decreasing map just as well: strictly monotone is enough)
+        if not (np.all(np.isfinite(r)) and (np.all(np.diff(r) > 0) or np.all(np.diff(r) < 0))):
+            ctx.log.add(ctx.step, "ivp", "skip-not-monotone")
             return
+        if np.all(np.diff(r) < 0):
+            ctx.probes.hit("ivp-through-decreasing-map")
         if tspec[0] in ("exp", "power", "lininf") and tspec[3] is None:
             if (P["n"] + ctx.step) % 2 or method != "DOP853":
                 # the caller fixes the scale itself ... (always so for the lower-order / implicit integrators: a scale
@@ -542,18 +545,26 @@ class OdeSeamEngine:
             cand = OP.gen_problem(rng, True)
             if cand.get("amp", 1.0) != 1.0:
                 continue
-            fam = rng.choice(["handy", "handy", "handy", "becke", "knowles", "handymod"])
+            fam = rng.choice(["handy", "handy", "handy", "becke", "knowles", "handymod", "multiexp", "multiexp", "inv_multiexp"])
             if fam == "handy":
                 t = ["handy", rng.choice([0.0, 0.1]), round(rng.uniform(0.8, 1.6), 2), rng.choice([3, 4, 5, 6])]
             elif fam == "becke":
                 t = ["becke", rng.choice([0.0, 0.1]), round(rng.uniform(0.8, 1.6), 2)]
             elif fam == "knowles":
                 t = ["knowles", rng.choice([0.0, 0.1]), round(rng.uniform(0.8, 1.6), 2), rng.choice([2, 3])]
-            else:
+            elif fam == "handymod":
                 t = ["handymod", rng.choice([0.0, 0.1]), round(rng.uniform(5.0, 20.0), 1), rng.choice([3, 4])]
+            elif fam == "multiexp":
+                t = ["multiexp", rng.choice([0.0, 0.1]), round(rng.uniform(0.8, 1.6), 2)]  # a DEcreasing map of (-1, 1)
+            else:
+                t = ["inv", ["multiexp", 0.1, round(rng.uniform(0.8, 1.6), 2)]]  # ... and its inverse, decreasing on (rmin, inf)
             cand["tspec"], cand["alts"] = t, []
             # (third order through the steepest maps costs DOP853 three more digits: its interval ends a little earlier)
             cand["a"], cand["b"] = round(rng.uniform(0.1, 0.4), 3), rng.choice([0.9, 0.97, 0.99, 0.995] if cand["order"] < 3 else [0.9, 0.95])
+            if fam == "multiexp":
+                cand["a"], cand["b"] = round(rng.uniform(-0.7, -0.3), 3), round(rng.uniform(0.2, 0.7), 3)
+            elif fam == "inv_multiexp":
+                cand["a"], cand["b"] = round(rng.uniform(0.3, 0.6), 3), round(rng.uniform(1.5, 3.0), 3)
             cand["tol"] = 1e-6
             ref = OP.reference_error(cand, cand["tol"])
             if ref is not None and ref <= 0.1 * ODE_ENVELOPE * cand["tol"]:
@@ -564,7 +575,8 @@ class OdeSeamEngine:
         ops = []
         for _ in range(rng.randint(2, 5)):
             if rng.random() < 0.85:
-                ops.append(["ivp", rng.choice(["tf", "tf", "direct"]), "DOP853", 0, False, rng.choice([None, None, "int_list"]), rng.random() < 0.25])
+                # (integrating from the far end downwards only through the gentle decreasing maps: started at the steep end, DOP853 loses the digits too)
+                ops.append(["ivp", rng.choice(["tf", "tf", "direct"]), "DOP853", 0, rng.random() < 0.3 and "multiexp" in str(P["tspec"]), rng.choice([None, None, "int_list"]), rng.random() < 0.25])
             else:
                 ops.append(["perturb", rng.randrange(200), rng.choice([None, 0, 7])])
         return {"engine": self.NAME, "seed": seed, "submode": submode, "problem": P, "ops": ops}
